@@ -30,8 +30,12 @@ def block_desc(max_txs=6, coll=True):
                      st.lists(TX, min_size=0, max_size=max_txs))
 
 
+CHUNKS = st.sampled_from([None, None, None, 41, 64, 97, 256, 1000])
+
+
 def sync_case(min_blocks=3, max_blocks=24, max_txs=6, large=False):
-    def build(activation, prefetch, reorg_limit, blocks, flushes, reveals, lat, coll, pads=()):
+    def build(activation, prefetch, reorg_limit, blocks, flushes, reveals, lat, coll, pads=(),
+              chunk=None):
         if pads:
             # the "large" stratum: some blocks carry hundreds of cheap extra transactions whose
             # outputs later blocks spend (thousands of UTXOs, tx numbers in the thousands)
@@ -53,7 +57,7 @@ def sync_case(min_blocks=3, max_blocks=24, max_txs=6, large=False):
             blocks[at]['txs'] = [{'ins': [c], 'outs': [[0, 0]]} for c in picks] + blocks[at]['txs']
         return {'activation': activation, 'prefetch': prefetch, 'reorg_limit': reorg_limit,
                 'blocks': blocks, 'flush': flush,
-                'reveals': [[1 + h % n, k] for h, k in reveals], 'lat': lat}
+                'reveals': [[1 + h % n, k] for h, k in reveals], 'lat': lat, 'chunk': chunk}
     return st.builds(
         build, st.integers(0, 9), st.integers(1, 8), st.sampled_from([1, 2, 3, 5, 8, 50]),
         st.lists(block_desc(max_txs), min_size=min_blocks, max_size=max_blocks),
@@ -64,7 +68,9 @@ def sync_case(min_blocks=3, max_blocks=24, max_txs=6, large=False):
                   st.tuples(st.integers(0, 223), st.integers(0, 30),
                             st.lists(st.integers(1, 4), min_size=1, max_size=4)).map(list)),
         st.lists(st.sampled_from([0, 0, 0, 40, 120, 300]), min_size=1, max_size=8) if large
-        else st.just(()))
+        else st.just(()),
+        # chunk stratum: block files streamed in chunks of this many bytes (None = 25 MB)
+        CHUNKS)
 
 
 def build_world(case):
@@ -176,6 +182,8 @@ def history_classes(model, flush_plan):
 def run_sync_case(scratch, case, parts, restart=True):
     '''Sync the generated chain with the generated flush schedule and daemon trajectory; observe;
     shut down; reopen for serving; observe again.  Returns (message|None, sig, info).'''
+    from pbt import node as node_mod
+    node_mod.CHUNK_OVERRIDE = case.get('chunk')
     world = build_world(case)
     chain = world.chain()
     activation = case['activation']
@@ -214,8 +222,13 @@ def run_sync_case(scratch, case, parts, restart=True):
                     db.utxo_db.close()
                 db.history.close_db()
 
+    if case.get('chunk'):
+        info['classes'].add('small_chunks')
     try:
-        run_sim(main, chooser=chooser, vt_deadline=5000)
+        try:
+            run_sim(main, chooser=chooser, vt_deadline=5000)
+        finally:
+            node_mod.CHUNK_OVERRIDE = None
     except NodeDied as e:
         return f'block processing died: {e}', 'node_died', info
     except SettleTimeout as e:
